@@ -11,7 +11,7 @@ pub const RULE: &str = "case = one valid base file (generated with 1..3 records,
 pub const REQUIRED: &[&str] = &[
     "reader.jaspar", "reader.jaspar16", "reader.transfac", "reader.uniprobe", "reader.protein", "input.empty",
     "input.prefix", "input.substitution", "input.deletion", "input.insertion", "input.multibyte_insertion", "input.framing", "input.no_final_newline",
-    "input.ragged", "input.long_line", "input.repetition", "input.tag_sweep", "input.header_only", "input.matrix_only", "input.huge_number", "input.duplicate_symbol",
+    "input.ragged", "input.long_line", "input.repetition", "input.repetition_after_record", "input.tag_sweep", "input.header_only", "input.matrix_only", "input.huge_number", "input.duplicate_symbol",
     "input.random_bytes", "input.invalid_utf8", "outcome.error", "outcome.records", "schedule.chunked",
     "schedule.cursor", "cross_format",
 ];
@@ -408,7 +408,7 @@ fn derive_and_feed(case: u64, rng: &mut Rng, rep: &mut Report, cfg: &Config, for
             while end < base.len() && (base[end].is_ascii_digit() || base[end] == b'.') {
                 end += 1;
             }
-            for big in ["99999999999999999999999999", "4294967296", "1e400", "1e39", "-5", "0.0000000000000000000000000000000000000000000001", "NaN", "nan", "inf", "-inf", "infinity"] {
+            for big in ["99999999999999999999999999", "4294967296", "4294967295", "4294967290", "1e400", "1e39", "-5", "0.0000000000000000000000000000000000000000000001", "NaN", "nan", "inf", "-inf", "infinity"] {
                 let mut t = base[..p].to_vec();
                 t.extend_from_slice(big.as_bytes());
                 t.extend_from_slice(&base[end..]);
@@ -460,6 +460,10 @@ fn fixed_inputs(case: u64, rng: &mut Rng, rep: &mut Report) {
         (b"hello\nA:\t0.5\n", "ragged"),
         (b"hello\nA:\t0.25\nC:\t0.25\nG:\t0.25\nT:\t0.25", "no_final_newline"),
         (b"A:\t0.25\nC:\t0.25\nG:\t0.25\nT:\t0.25\n", "matrix_only"),
+        // the largest legal count in every cell of a position (the row total is above 2^32)
+        (b">x\nA [4294967295 1]\nC [4294967295 1]\nG [4294967295 1]\nT [4294967295 1]\n", "huge_number"),
+        (b">x\n4294967295 1\n4294967295 1\n4294967295 1\n4294967295 1\n", "huge_number"),
+        (b"AC x\nXX\nP0      A      C      G      T\n01 4294967295 4294967295 4294967295 4294967295 N\nXX\n//\n", "huge_number"),
         (b"\xff\xfe\xfd", "invalid_utf8"),
         (b">x\xff\n1 2\n1 2\n1 2\n1 2\n", "invalid_utf8"),
         (b"AC \xc3\x28\nXX\n//\n", "invalid_utf8"),
@@ -479,8 +483,13 @@ fn fixed_inputs(case: u64, rng: &mut Rng, rep: &mut Report) {
     {
         const UNITS: [&[u8]; 12] = [b"VV\n//\n", b"VV x\nXX\n//\n", b"//\n", b"XX\n", b"\n", b">\n", b">", b"> x\n", b"#\n", b"A:\n", b" \n", b"\r\n"];
         for unit in UNITS.iter() {
-            for &n in [3usize, 300, 60_000].iter() {
-                let mut input = Vec::with_capacity(unit.len() * n + 64);
+            for &n in [3usize, 300, 60_000, 70_000].iter() {
+                let mut input = Vec::with_capacity(unit.len() * n + 128);
+                if n == 70_000 || rng.chance(0.3) {
+                    // a complete record first: the units then stand BETWEEN two records (or after the last)
+                    input.extend_from_slice(b">w\nA [1 2]\nC [1 2]\nG [1 2]\nT [1 2]\n");
+                    rep.cover("input.repetition_after_record");
+                }
                 for _ in 0..n {
                     input.extend_from_slice(unit);
                 }
